@@ -720,13 +720,26 @@ def spec_parse_subcommand(fns, consts):
             ok, why = False, "a subcommand is attached without having been parsed"
         obs.append({"fn": fn.name, "block": "ret", "kind": "spec", "target": "parse_subcommand", "msg": "recursive parse uses the subcommand's own definition and matcher" + (": " + why if why else ""),
                     "pc": list(pc), "neg": "false" if ok else "true"})
+        if gm and val[0] == "enum" and val[1] == "Ok":
+            # a failed child parse that is swallowed: only a REAL error under ignore_errors - a help / version
+            # request of the subcommand (not use_stderr) is handed up like it is at the top level
+            dgm = ctx.keys.get(f"discr({gm[0][2]})")
+            if dgm and f"(= {dgm} (_ bv1 64))" in pc:
+                ign = [k for k in ctx.keys if re.search(r"Command::is_ignore_errors_set\(", k)]
+                us = [c for c in ca if re.search(r"Error(::<.*>)?::use_stderr$", c[0])]
+                u = ctx.keys.get(us[0][2]) if us else ex.typed_fresh("absent:Error::use_stderr(child error)", "bool")[1]
+                obs.append({"fn": fn.name, "block": "ret", "kind": "spec", "target": "parse_subcommand",
+                            "msg": "a failed child parse is swallowed only under ignore_errors and only for a real error (use_stderr), never for a help/version request",
+                            "pc": list(pc), "neg": f"(not (and {ctx.keys[ign[0]]} {u}))" if len(ign) == 1 else "true"})
         if val[0] == "enum" and val[1] == "Err":
             ign = [k for k in ctx.keys if re.search(r"Command::is_ignore_errors_set\(", k)]
             if not gm or len(ign) != 1:
                 obs.append({"fn": fn.name, "block": "ret", "kind": "spec", "target": "parse_subcommand", "msg": "an error is returned without a failed child parse", "pc": list(pc), "neg": "true"})
             else:
-                obs.append({"fn": fn.name, "block": "ret", "kind": "spec", "target": "parse_subcommand", "msg": "a child error is swallowed when, and only returned when, errors are not ignored",
-                            "pc": list(pc), "neg": ctx.keys[ign[0]]})
+                us = [c for c in ca if re.search(r"Error(::<.*>)?::use_stderr$", c[0])]
+                u = ctx.keys.get(us[0][2]) if us else "true"
+                obs.append({"fn": fn.name, "block": "ret", "kind": "spec", "target": "parse_subcommand", "msg": "a child error is returned unless errors are ignored and it is a real error (use_stderr)",
+                            "pc": list(pc), "neg": f"(and {ctx.keys[ign[0]]} {u})"})
     if n_parse == 0:
         raise Unsupported("parse_subcommand: no path runs the child parser (vacuous)")
     for o in obs:
@@ -3036,3 +3049,5 @@ def spec_ignore_errors_recovery(fns, consts):
 
 SPECS["C06"].append(spec_ignore_errors_recovery)
 SPECS["C01"].append(spec_ignore_errors_recovery)
+
+SPECS["C01"].append(spec_parse_subcommand)        # error-ignoring: an explicit help / version request is still reported
